@@ -20,6 +20,7 @@ SEED = int(os.environ.get("VERIF_SEED", "0") or 0)
 XCHECK = os.environ.get("VERIF_XCHECK", "1") != "0"      # cross-check unsat verdicts with the binaries
 Z3_BIN = "/usr/bin/z3"
 CVC5_BIN = shutil.which("cvc5") or "cvc5"
+RETRY = os.environ.get("VERIF_RETRY", "1") != "0"
 XCHECK_S = float(os.environ.get("VERIF_XCHECK_S", "5"))      # time limit of each cross-checking binary
 
 QUICK_LAYOUTS = ["dex", "recursive", "recursive_with_poseidon", "small", "starknet"]
@@ -93,33 +94,179 @@ def _run_bin(cmd, text, timeout_s):
         os.unlink(name)
 
 
+class ModelProxy(object):
+    """model values shipped back from the forked solver process: {constant name: z3 value}"""
+    def __init__(self, raw):
+        self.vals = {}
+        for name, v in raw.items():
+            if v[0] == "int":
+                self.vals[name] = z3.IntVal(v[1])
+            elif v[0] == "real":
+                self.vals[name] = z3.RatVal(v[1], v[2])
+            elif v[0] == "bv":
+                self.vals[name] = z3.BitVecVal(v[1], v[2])
+            elif v[0] == "bool":
+                self.vals[name] = z3.BoolVal(v[1])
+            else:
+                self.vals[name] = None          # algebraic number etc.: not representable as a rational
+    def __getitem__(self, const):
+        return self.vals.get(const.decl().name())
+    def eval(self, expr, model_completion=True):
+        if z3.is_const(expr) and expr.decl().kind() == z3.Z3_OP_UNINTERPRETED:
+            v = self.vals.get(expr.decl().name())
+            if v is None and model_completion and expr.decl().name() not in self.vals:
+                srt = expr.sort()
+                if srt == z3.IntSort(): return z3.IntVal(0)
+                if srt == z3.RealSort(): return z3.RatVal(0, 1)
+                if z3.is_bv_sort(srt): return z3.BitVecVal(0, srt.size())
+            return v
+        subs = []
+        for c in _consts_of(expr):
+            v = self.eval(c, model_completion)
+            if v is None:
+                return None
+            subs.append((c, v))
+        return z3.simplify(z3.substitute(expr, *subs)) if subs else z3.simplify(expr)
+
+
+def _consts_of(expr):
+    seen, out, stack = set(), [], [expr]
+    while stack:
+        e = stack.pop()
+        if e.get_id() in seen:
+            continue
+        seen.add(e.get_id())
+        if z3.is_const(e) and e.decl().kind() == z3.Z3_OP_UNINTERPRETED:
+            out.append(e)
+        else:
+            stack.extend(e.children())
+    return out
+
+
+def _child_solve(assertions, timeout_s, want_model, logic, wfd, attempt=0):
+    import pickle
+    out = {"verdict": "inconclusive", "note": None, "model": None}
+    try:
+        if attempt:
+            ctx2 = z3.Context()
+            assertions = [a.translate(ctx2) for a in reversed(assertions)]
+            s = z3.Solver(ctx=ctx2) if logic is None else z3.SolverFor(logic, ctx=ctx2)
+            s.set("random_seed", 7 * attempt)
+        else:
+            s = z3.Solver() if logic is None else z3.SolverFor(logic)
+        s.set("timeout", int(timeout_s * 1000))
+        for a in assertions:
+            s.add(a)
+        r = s.check()
+        if r == z3.sat:
+            out["verdict"] = "sat"
+            if want_model:
+                m, vals = s.model(), {}
+                for d in m.decls():
+                    if d.arity() != 0:
+                        continue
+                    v = m[d]
+                    if z3.is_int_value(v): vals[d.name()] = ("int", v.as_long())
+                    elif z3.is_rational_value(v): vals[d.name()] = ("real", v.numerator_as_long(), v.denominator_as_long())
+                    elif z3.is_bv_value(v): vals[d.name()] = ("bv", v.as_long(), v.size())
+                    elif z3.is_true(v) or z3.is_false(v): vals[d.name()] = ("bool", z3.is_true(v))
+                    else: vals[d.name()] = ("other", str(v)[:80])
+                out["model"] = vals
+        elif r == z3.unsat:
+            out["verdict"] = "unsat"
+        else:
+            out["note"] = "z3: %s (%s)" % (r, s.reason_unknown())
+    except z3.Z3Exception as ex:
+        out["note"] = "z3 exception: %s" % ex
+    except BaseException as ex:        # noqa
+        out["note"] = "solver process error: %r" % (ex,)
+    try:
+        data = pickle.dumps(out)
+        os.write(wfd, len(data).to_bytes(8, "little"))
+        off = 0
+        while off < len(data):
+            off += os.write(wfd, data[off:off + 65536])
+    finally:
+        os._exit(0)
+
+
+def _forked_solve(assertions, timeout_s, want_model, logic, attempt=0):
+    """z3py in a forked child with a HARD wall-clock limit (z3's own timeout is cooperative and some nlsat steps ignore it)"""
+    import pickle
+    import select
+    import signal
+    rfd, wfd = os.pipe()
+    pid = os.fork()
+    if pid == 0:
+        os.close(rfd)
+        _child_solve(assertions, timeout_s, want_model, logic, wfd, attempt)
+        os._exit(0)
+    os.close(wfd)
+    deadline = time.time() + timeout_s + 5
+    buf = b""
+    need = None
+    result = None
+    try:
+        while True:
+            left = deadline - time.time()
+            if left <= 0:
+                break
+            rd, _, _ = select.select([rfd], [], [], min(left, 1.0))
+            if not rd:
+                continue
+            chunk = os.read(rfd, 1 << 20)
+            if not chunk:
+                break
+            buf += chunk
+            if need is None and len(buf) >= 8:
+                need = int.from_bytes(buf[:8], "little")
+            if need is not None and len(buf) >= 8 + need:
+                result = pickle.loads(buf[8:8 + need])
+                break
+    finally:
+        os.close(rfd)
+        try:
+            os.kill(pid, signal.SIGKILL)
+        except OSError:
+            pass
+        try:
+            os.waitpid(pid, 0)
+        except OSError:
+            pass
+    if result is None:
+        return {"verdict": "inconclusive", "note": "hard timeout after %ds (solver process killed)" % int(timeout_s + 5), "model": None}
+    return result
+
+
 def check(assertions, stats, timeout_s=60, want_model=False, xcheck=None, logic=None):
     """Decide the conjunction of `assertions`.
 
     returns (verdict, model) with verdict in 'sat' | 'unsat' | 'inconclusive'.
-    'inconclusive' covers unknown, timeout, solver exceptions, any `(error`, and a
+    'inconclusive' covers unknown, timeout (cooperative or hard), solver exceptions, any `(error`, and a
     disagreement between the deciding solver (z3py) and the cross-checking binaries."""
-    s = z3.Solver() if logic is None else z3.SolverFor(logic)
-    s.set("timeout", int(timeout_s * 1000))
     t0 = time.time()
-    model = None
-    try:
-        for a in assertions:
-            s.add(a)
-        r = s.check()
-        verdict = "sat" if r == z3.sat else ("unsat" if r == z3.unsat else "inconclusive")
-        if verdict == "inconclusive":
-            stats.notes.append("z3: %s (%s)" % (r, s.reason_unknown()))
-        if verdict == "sat" and want_model:
-            model = s.model()
-    except z3.Z3Exception as ex:
-        verdict = "inconclusive"
-        stats.notes.append("z3 exception: %s" % ex)
+    assertions = list(assertions)
+    res = _forked_solve(assertions, timeout_s, want_model, logic, 0)
+    if res["verdict"] == "inconclusive" and RETRY:
+        # z3's nlsat is sensitive to term numbering; one retry in a fresh context with other seeds
+        first = res["note"]
+        res = _forked_solve(assertions, timeout_s, want_model, logic, 1)
+        if res["verdict"] != "inconclusive":
+            stats.notes.append("first attempt gave no verdict (%s); retry in a fresh context decided" % first)
+        elif first and not res["note"]:
+            res["note"] = first
+    verdict = res["verdict"]
+    if res["note"]:
+        stats.notes.append(res["note"])
+    model = ModelProxy(res["model"]) if (verdict == "sat" and want_model and res["model"] is not None) else None
     stats.queries += 1
     stats.seconds += time.time() - t0
     do_x = XCHECK if xcheck is None else xcheck
     if do_x and verdict in ("sat", "unsat"):
         try:
+            s = z3.Solver() if logic is None else z3.SolverFor(logic)
+            for a in assertions:
+                s.add(a)
             text = s.to_smt2()
         except z3.Z3Exception as ex:
             stats.notes.append("to_smt2 failed: %s" % ex)
